@@ -98,8 +98,9 @@ pub fn run_case(case: &Value, keys: &Keys) -> Value {
 pub fn gen_case(rng: &mut rand::rngs::StdRng, keys: &Keys, o: &GenOpts) -> Value {
     let mut pool = Pool::default();
     let nb = rng.gen_range(1..=o.max_blocks);
-    let blocks: Vec<Value> = (0..nb).map(|i| gen_block_j(rng, keys, &mut pool, i, o)).collect();
-    let az = gen_az_j(rng, keys, &mut pool, o);
+    let mut authority = vec![];
+    let blocks: Vec<Value> = (0..nb).map(|i| gen_block_j(rng, keys, &mut pool, i, o, &mut authority)).collect();
+    let az = gen_az_j(rng, keys, &mut pool, o, &authority);
     let queries = gen_queries_j(rng, keys, &mut pool);
     json!({"op": "authz", "pool": pool.strs, "blocks": blocks, "az": az, "limits": {"f": 1000, "i": 100}, "queries": queries})
 }
